@@ -165,7 +165,9 @@ func c19Replace(r *mc.Report) (states, transitions int) {
 	oldProcs := runtime.GOMAXPROCS(1)
 	defer runtime.GOMAXPROCS(oldProcs)
 	actions := []string{"replace:k1", "replace:k2", "drop:k1", "gc"}
-	apis := []string{"Search", "StreamSearch", "List"}
+	// "/chunks" and "/lines": the same calls returning chunk / line matches instead of whole files
+	// (every byte slice of a result must have been copied out of the shard's mapping)
+	apis := []string{"Search", "StreamSearch", "List", "Search/chunks", "StreamSearch/chunks", "Search/lines"}
 	run := func(api string, schedule map[int64][]string) (w *c19bWorld, problems []string) {
 		w = &c19bWorld{schedule: schedule, images: images}
 		w.ss = newShardedSearcher(4)
@@ -178,6 +180,13 @@ func c19Replace(r *mc.Report) (states, transitions int) {
 		defer func() { VerifHook = nil }()
 		ctx := context.Background()
 		opts := zoekt.SearchOptions{Whole: true, ShardMaxMatchCount: 1 << 30, TotalMaxMatchCount: 1 << 30}
+		api, mode, _ := strings.Cut(api, "/")
+		switch mode {
+		case "chunks":
+			opts.Whole, opts.ChunkMatches = false, true
+		case "lines":
+			opts.Whole = false
+		}
 		var files []zoekt.FileMatch
 		var crashes int
 		var listed []string
@@ -228,6 +237,23 @@ func c19Replace(r *mc.Report) (states, transitions int) {
 			problems = append(problems, fmt.Sprintf("result reports %d crashed shard(s)", crashes))
 		}
 		perRepo := map[string]map[string]bool{}
+		for fi := range files {
+			// the text of the (single-line) document as this result mode carries it
+			switch mode {
+			case "chunks":
+				var b []byte
+				for _, cm := range files[fi].ChunkMatches {
+					b = append(b, cm.Content...)
+				}
+				files[fi].Content = b
+			case "lines":
+				var b []byte
+				for _, lm := range files[fi].LineMatches {
+					b = append(b, lm.Line...)
+				}
+				files[fi].Content = b
+			}
+		}
 		for _, f := range files {
 			ok := false
 			for _, v := range []string{"V1", "V2"} {
